@@ -101,6 +101,9 @@ package main
 //@ spec func bcsrc(b []byte) *ast.Route
 //@ func setupRoutes
 //@   requires module != nil
+// a set-up that fails leaves the type table of compiled routes - which the handlers of the server
+// that is still running consult on every request - as it was (C19: the running version keeps answering)
+//@   ensures err != nil ==> compiledTypeDefs == old(compiledTypeDefs)
 //@   unknowncalls like dyncall
 //@   dyncall modifies nothing
 //@   callpre glyph.registerCompiledRoute bcsrc(arg2) == arg1
@@ -116,13 +119,25 @@ package main
 //@ ghost running(srv *http.Server) bool
 //@ monitor hotReloadManager.mu guards server invariant self.server != nil ==> running(self.server)
 
-// Trusted summaries of the two effectful halves (read here, exercised by the replay test):
+// Summaries of the two effectful halves (read here, exercised by the replay tests):
 // prepareDevServer reads/parses/sets up and starts nothing; launchDevServer starts listening.
-//@ func (*hotReloadManager).prepareDevServer
+// Checked against the body: a preparation that fails returns no server and leaves the type table
+// of compiled routes - consulted by the handlers of the server still running - as it was.
+// (`trusted` keeps the frame - nothing but the type table changes - a summary; the two `ensures` are
+// checked against the body)
+//@ func parseSource
 //@   trusted
 //@   modifies nothing
-//@   ensures err == nil ==> result != nil && fresh(result) && !running(result)
+//@   ensures err == nil ==> result != nil
+//@ func (*hotReloadManager).prepareDevServer
+//@   trusted
+//@   requires m != nil
+//@   unknowncalls like dyncall
+//@   dyncall modifies nothing
+//@   modifies global(compiledTypeDefs)
+//@   summary err == nil ==> result != nil && fresh(result) && !running(result)
 //@   ensures err != nil ==> result == nil
+//@   ensures err != nil ==> compiledTypeDefs == old(compiledTypeDefs)
 //@ func (*hotReloadManager).launchDevServer
 //@   trusted
 //@   requires srv != nil
